@@ -25,7 +25,7 @@ import traceback
 from vlib import env
 
 MAX_SAMPLES = 4
-FLOOR_FRACTION = 0.1
+FLOOR_FRACTION = 0.05      # of the idle-machine expectation; a bypassed monitor (count 0) still shows
 MAX_REPLAYS = 6
 
 
